@@ -44,6 +44,15 @@ func collectTemplates(c *Ctx) (tmpls []*tmplInfo, funcs map[string]*ast.FuncLit,
 	embeds := map[string]string{} // var -> file
 	funcs = map[string]*ast.FuncLit{}
 	dir := ""
+	// the package's plain functions, for a funcMap entry or a template constructor that names one
+	decls := map[string]*ast.FuncDecl{}
+	for _, f := range pk.Syntax {
+		for _, d := range f.Decls {
+			if fd, ok := d.(*ast.FuncDecl); ok && fd.Recv == nil && fd.Body != nil {
+				decls[fd.Name.Name] = fd
+			}
+		}
+	}
 	for _, f := range pk.Syntax {
 		fname := c.P.Fset.Position(f.Pos()).Filename
 		dir = filepath.Dir(fname)
@@ -78,6 +87,11 @@ func collectTemplates(c *Ctx) (tmpls []*tmplInfo, funcs map[string]*ast.FuncLit,
 								if bl, ok := kv.Key.(*ast.BasicLit); ok {
 									name := strings.Trim(bl.Value, "\"")
 									fl, _ := kv.Value.(*ast.FuncLit)
+									if id, isId := kv.Value.(*ast.Ident); isId && fl == nil {
+										if fd := decls[id.Name]; fd != nil {
+											fl = &ast.FuncLit{Type: fd.Type, Body: fd.Body} // a named function of the package
+										}
+									}
 									funcs[name] = fl
 								}
 							}
@@ -85,6 +99,26 @@ func collectTemplates(c *Ctx) (tmpls []*tmplInfo, funcs map[string]*ast.FuncLit,
 					case *ast.CallExpr:
 						// template.Must(template.New(..).Funcs(..).Parse(X))
 						src := findParseArg(v)
+						if src == "" {
+							// built by a helper of the package that parses one of its parameters: helper(name, <embed var>)
+							if id, isId := v.Fun.(*ast.Ident); isId {
+								if fd := decls[id.Name]; fd != nil {
+									if prm := findParseArg(fd.Body); prm != "" {
+										k := 0
+										for _, fld := range fd.Type.Params.List {
+											for _, nm := range fld.Names {
+												if nm.Name == prm && k < len(v.Args) {
+													if aid, ok := v.Args[k].(*ast.Ident); ok {
+														src = aid.Name
+													}
+												}
+												k++
+											}
+										}
+									}
+								}
+							}
+						}
 						if src != "" {
 							tmpls = append(tmpls, &tmplInfo{varName: n.Name, srcVar: src, declPos: n.Pos()})
 						}
@@ -122,7 +156,7 @@ func collectTemplates(c *Ctx) (tmpls []*tmplInfo, funcs map[string]*ast.FuncLit,
 	return tmpls, funcs, true
 }
 
-func findParseArg(e ast.Expr) string {
+func findParseArg(e ast.Node) string {
 	var out string
 	ast.Inspect(e, func(n ast.Node) bool {
 		call, ok := n.(*ast.CallExpr)
